@@ -202,6 +202,7 @@ G9_clean = [
     r('Polygon2D.remove_duplicate_vertices', [POLY2, Q], name='Polygon2D_remove_duplicate_vertices'),
     r('Polyline2D.remove_colinear_vertices', [O('Polyline2D'), Q], name='Polyline2D_remove_colinear_vertices'),
     r('Polyline3D.remove_colinear_vertices', [O('Polyline3D'), Q], name='Polyline3D_remove_colinear_vertices'),
+    r('Face3D._remove_colinear', [FACE, TLst(P3), POLY2, Q], name='Face3D__remove_colinear'),
 ]
 LAYERS.append(('G9_clean', G9_clean))
 
